@@ -177,7 +177,7 @@ def _replay_route(args):
         try:
             variants = [restr0] if restr0 else [None, []]
             for rv in variants:
-                obs = route_observe(start, end, rv, cs['ignoreH'])
+                obs = common.guarded(route_observe, 60, start, end, rv, cs['ignoreH'])
                 why = None
                 if obs['called'] != exp['called']:
                     why = 'optimiser_called'
@@ -394,7 +394,7 @@ def _work_random(args):
                     given = restr if restr else None
                     if given and tid % 3 == 0:
                         given = [list(p_) for p_ in given]          # pairs written as lists instead of tuples
-                    obs = route_observe(start, end, given, ign)
+                    obs = common.guarded(route_observe, 60, start, end, given, ign)
                     ev = [{'op': 'Route', 'nS': nS, 'nE': nE, 'hS': sorted(hS), 'hE': sorted(hE),
                            'restr': [[i + 1, j + 1] for i, j in restr], 'ignoreH': ign, 'called': obs['called'],
                            'fixed': obs['fixed'], 'delivered': obs['delivered'], 'rows': obs['rows'],
